@@ -1147,11 +1147,14 @@ def _child_args(item):
         Ys = Xs if item.get("same") else [typed(y, item["dy"], item["ly"]) for y in item["Ys"]]
         return th, lambda: mutual_info.mi_matrix(Xs, Ys, item["nx"], item["ny"], normalize=False)
     X = typed(item["X"], item["dx"], item["lx"], fill=0)
+    undeclared = item.get("declare") is False and api != "kernel"
     if item.get("Y") is None:
-        if item["nx"] is None:
+        if item["nx"] is None or undeclared:
             return th, lambda: mutual_info.joint_counts(X)
         return th, lambda: mutual_info.joint_counts(X, n_x=item["nx"])
     Y = X if item.get("same") else typed(item["Y"], item["dy"], item["ly"], fill=0)
+    if undeclared:
+        return th, lambda: mutual_info.joint_counts(X, Y)
     if api == "kernel":
         return th, lambda: libinfo.matrix_bincount2d(X, Y, item["nx"], item["ny"])
     return th, lambda: mutual_info.joint_counts(X, Y, item["nx"], item["ny"])
@@ -1248,6 +1251,9 @@ def invalid_item(draw):
             "nx": n_x, "ny": n_y, "dx": dx, "dy": dy}
     t = draw(st.integers(0, T - 1))
     if kind.startswith("neg"):
+        # negative ids are refused whether or not the state counts are declared (with undeclared counts the library
+        # infers them from the data - a negative id is outside every range)
+        item["declare"] = draw(st.sampled_from([True, True, False]))
         if "x" in which:
             X[t][draw(st.integers(0, Fx - 1))] = draw(st.sampled_from(_neg_values(dx, n_x)))
         if "y" in which:
